@@ -144,6 +144,42 @@ func c05Extras(p *objPool) {
 	ring = append(ring, ring[0])
 	p.add(geojson.NewPolygon(geometry.NewPoly(ring, nil, nil)), "Polygon(indexed)", nil)
 	p.add(geojson.NewLineString(geometry.NewLine(ring, &geometry.IndexOptions{Kind: geometry.RTree, MinPoints: 1})), "LineString(indexed)", nil)
+	// hand-assembled geometry values (exported fields) handed to the constructors
+	for i, mk := range handAssembled() {
+		p.add(mk.o(), fmt.Sprintf("hand-assembled#%d", i), nil)
+	}
+}
+
+// handAssembled: geometry.Poly values put together field by field rather
+// than through NewPoly, handed to the public constructors.
+func handAssembled() []struct {
+	name  string
+	typ   string
+	depth int
+	o     func() geojson.Object
+} {
+	tri := func() geometry.Ring {
+		return geometry.NewPoly([]geometry.Point{{X: 1, Y: 1}, {X: 2, Y: 1}, {X: 2, Y: 2}, {X: 1, Y: 1}}, nil, nil).Exterior
+	}
+	return []struct {
+		name  string
+		typ   string
+		depth int
+		o     func() geojson.Object
+	}{
+		{"NewPolygon(&Poly{Holes})", "Polygon", 3, func() geojson.Object { return geojson.NewPolygon(&geometry.Poly{Holes: []geometry.Ring{tri()}}) }},
+		{"NewPolygon(new(Poly))", "Polygon", 3, func() geojson.Object { return geojson.NewPolygon(new(geometry.Poly)) }},
+		{"NewMultiPolygon([nil])", "MultiPolygon", 4, func() geojson.Object { return geojson.NewMultiPolygon([]*geometry.Poly{nil}) }},
+		{"NewMultiPolygon([&Poly{Holes}, poly])", "MultiPolygon", 4, func() geojson.Object {
+			return geojson.NewMultiPolygon([]*geometry.Poly{{Holes: []geometry.Ring{tri()}}, geometry.NewPoly([]geometry.Point{{X: 0, Y: 0}, {X: 4, Y: 0}, {X: 4, Y: 4}, {X: 0, Y: 0}}, nil, nil)})
+		}},
+		{"NewPolygon(&Poly{Exterior: Rect, Holes})", "Polygon", 3, func() geojson.Object {
+			return geojson.NewPolygon(&geometry.Poly{Exterior: geometry.Rect{Min: geometry.Point{X: 0, Y: 0}, Max: geometry.Point{X: 4, Y: 4}}, Holes: []geometry.Ring{tri()}})
+		}},
+		{"NewPolygon(&Poly{Exterior: Rect})", "Polygon", 3, func() geojson.Object {
+			return geojson.NewPolygon(&geometry.Poly{Exterior: geometry.Rect{Min: geometry.Point{X: 0, Y: 0}, Max: geometry.Point{X: 4, Y: 4}}})
+		}},
+	}
 }
 
 // c05Builders: constructions that may themselves fail (index building over
